@@ -158,3 +158,170 @@ class tt_permute(Contract):
             [q, i, r], z3.Implies(z3.And(0 <= q, q < g["N"], 0 <= i, i < g["rows"](oq), 0 <= r, r < T.tz(g["cshape"].fn(oq))),
                                   z3.And(T.tz(T.eq(item.shape[0], g["rows"](oq))), T.tz(T.eq(item.shape[1], g["cshape"].fn(oq))),
                                          T.tz(T.as_real(item.fn(i, r))) == g["fm"](oq, i, r))))
+
+
+# ======================================================================= nvecs: ordering and sign logic (C14)
+
+def _abs_unfolding(it, pos, kw, self_val):
+    """X.to_tenmat(rdims=[n]): the mode-n unfolding, a matrix with shape[n] rows (entries not needed: the clauses proved here
+    are relative to the eigen-solver's answer)"""
+    d = self_val.ghost["dn"]
+    cols = T.fresh_int("ucols")
+    it.ctx.assume(cols >= 1)
+    return Rec("tenmat", dict(data=Arr.fresh("Xn", (d, cols), "real")))
+
+
+def _abs_tenmat_double(it, pos, kw, self_val):
+    """tenmat.double(): the data matrix"""
+    return self_val.fields["data"]
+
+
+class tensor_nvecs(Contract):
+    qual = "pyttb.tensor.tensor.nvecs"
+    props = ("C14",)
+    doc = ("X.nvecs(n, r, flipsign): whatever eigenvalues w and eigenvector matrix v the eigen-solver returns for the Gram "
+           "matrix of the mode-n unfolding, the result has shape[n] rows and r columns, column j is (up to sign) the COLUMN of "
+           "v that belongs to the j-th largest |w| (columns re-ordered, rows untouched), and with flipsign the entry of largest "
+           "magnitude of every column is non-negative, each column being +/- the solver's column.  That w, v are eigenpairs of "
+           "the Gram matrix, and the Gram matrix itself (a matrix product), are assumed / bounded.")
+
+    def abstract_calls(self, S, a):
+        return {"pyttb.tensor.tensor.to_tenmat": _abs_unfolding, "pyttb.tenmat.tenmat.double": _abs_tenmat_double}
+
+    def case_names(self):
+        return ["flipsign", "no-flipsign"]
+
+    def setup(self, S, case):
+        S.ctx.matmul_havoc = True
+        dn = S.int("dn", 1)
+        me = Rec("tensor", {})
+        me.ghost = dict(dn=dn)
+        r = S.int("r", 1)
+        S.assume(r <= dn)
+        a = dict(__self__=me, n=S.int("n", 0), r=r)
+        if case == "no-flipsign":
+            a["flipsign"] = False
+        return a
+
+    @staticmethod
+    def _parts(S):
+        eg, ag = S.body_ghosts.get("eig"), S.body_ghosts.get("argsort")
+        if not eg or not ag:
+            return None
+        e = eg[-1]
+        w0, v0 = N.snap(e["w"]), N.snap(e["v"])
+        pf, pinv = ag[-1]
+        return e, (lambda t_: T.tz(w0.fn(t_))), (lambda i_, c_: T.tz(v0.fn(i_, c_))), pf
+
+    @staticmethod
+    def _columns(S, a, vmat, done, idx):
+        """columns < done carry their sign, the others are still the solver's columns (re-ordered)"""
+        parts = tensor_nvecs._parts(S)
+        if parts is None or not isinstance(vmat, Arr) or vmat.ndim != 2:
+            return False
+        e, wv, vv, pf = parts
+        dn, r = a["__self__"].ghost["dn"], a["r"]
+        V = N.snap(vmat)
+        i, j = z3.Int("nv!i"), z3.Int("nv!j")
+        col = lambda i_, j_: vv(i_, pf(j_))
+        if idx is None:
+            sg = lambda j_: z3.RealVal(1)
+        else:
+            ix = N.snap(idx)
+            sg = lambda j_: z3.If(z3.And(j_ < T.tz(done), col(T.tz(ix.fn(j_)), j_) < 0), z3.RealVal(-1), z3.RealVal(1))
+        return z3.And(T.tz(T.eq(V.shape[0], dn)), T.tz(T.eq(V.shape[1], r)),
+                      T.ForAll([i, j], z3.Implies(z3.And(0 <= i, i < dn, 0 <= j, j < r), T.tz(T.as_real(V.fn(i, j))) == sg(j) * col(i, j)), [V.fn(i, j)]))
+
+    loops = {0: dict(modifies=["v"], inv=lambda S, a, env, i: tensor_nvecs._columns(S, a, env["v"], i, env["idx"]))}
+
+    def ensures(self, S, a, ret):
+        yield "matrix", isinstance(ret, Arr) and ret.ndim == 2
+        parts = self._parts(S)
+        yield "eigen-solver-called-and-its-answer-sorted", parts is not None
+        if parts is None or not (isinstance(ret, Arr) and ret.ndim == 2):
+            return
+        e, wv, vv, pf = parts
+        dn, r = a["__self__"].ghost["dn"], a["r"]
+        k = T.tz(e["k"])
+        j, j2, i = z3.Int("nv!ej"), z3.Int("nv!ej2"), z3.Int("nv!ei")
+        absw = lambda t_: z3.If(wv(t_) < 0, -wv(t_), wv(t_))
+        yield "column-order-is-a-permutation-of-the-solver's-columns", z3.And(
+            T.ForAll([j], z3.Implies(z3.And(0 <= j, j < k), z3.And(0 <= pf(j), pf(j) < k)), [pf(j)]),
+            T.ForAll([j, j2], z3.Implies(z3.And(0 <= j, j < j2, j2 < k), pf(j) != pf(j2)), [[pf(j), pf(j2)]]))
+        yield "by-decreasing-magnitude-of-the-eigenvalue", T.ForAll(
+            [j, j2], z3.Implies(z3.And(0 <= j, j < j2, j2 < k), absw(pf(j)) >= absw(pf(j2))), [[pf(j), pf(j2)]])
+        flip = a.get("flipsign", True) is not False
+        idx = S.it.top_env.get("idx") if flip else None
+        yield "columns-of-the-solver-re-ordered-and-signed", self._columns(S, a, ret, r, idx), "lemma"
+        if flip and isinstance(idx, Arr):
+            ix, V = N.snap(idx), N.snap(ret)
+            rv = lambda i_, j_: T.tz(T.as_real(V.fn(i_, j_)))
+            am = lambda j_: T.tz(ix.fn(j_))
+            yield "largest-entry-of-every-column-is-non-negative", T.ForAll(
+                [i, j], z3.Implies(z3.And(0 <= i, i < dn, 0 <= j, j < r),
+                                   z3.And(0 <= am(j), am(j) < dn, rv(am(j), j) >= 0, rv(am(j), j) >= rv(i, j), rv(am(j), j) >= -rv(i, j))))
+
+
+def _abs_self(it, pos, kw, self_val):
+    """copy / reshape / squeeze of the sparse tensor on the way to its mode-n unfolding: abstracted (the clauses proved here are
+    relative to the eigen-solver's answer; the unfolding itself is C01 / C07)"""
+    return self_val
+
+
+def _abs_spmatrix(it, pos, kw, self_val):
+    """spmatrix() of the unfolded sparse tensor: a matrix with shape[n] rows"""
+    cols = T.fresh_int("ucols")
+    it.ctx.assume(cols >= 1)
+    return Arr.fresh("Xn", (self_val.ghost["dn"], cols), "real")
+
+
+def _abs_identity(it, pos, kw, self_val=None):
+    """to_memory_order(v, order): the same values"""
+    return pos[0]
+
+
+@register
+class tensor_nvecs_(tensor_nvecs):
+    qual = "pyttb.tensor.tensor.nvecs"
+
+
+@register
+class sptensor_nvecs(tensor_nvecs):
+    qual = "pyttb.sptensor.sptensor.nvecs"
+    inline = ("pyttb.sptensor.sptensor.ndims", "pyttb.sptensor.sptensor.order")
+
+    def abstract_calls(self, S, a):
+        Q = "pyttb.sptensor.sptensor."
+        return {Q + "copy": _abs_self, Q + "reshape": _abs_self, Q + "squeeze": _abs_self, Q + "spmatrix": _abs_spmatrix,
+                "pyttb.pyttb_utils.to_memory_order": _abs_identity}
+
+    def setup(self, S, case):
+        a = super().setup(S, case)
+        me = a["__self__"]
+        me.cls = "sptensor"
+        Nn = S.int("N", 1)
+        me.fields["shape"] = S.vector("shape", Nn, "int", kind="tuple")
+        me.fields["subs"] = S.matrix("subs", S.nat("nnz"), Nn, "int")
+        S.assume(a["n"] < Nn)
+        return a
+
+
+@register
+class ktensor_nvecs(tensor_nvecs):
+    qual = "pyttb.ktensor.ktensor.nvecs"
+    inline = ("pyttb.ktensor.ktensor.ndims",)
+    loops = {0: dict(modifies=["M"], inv=lambda S, a, env, i: True),
+             1: tensor_nvecs.loops[0]}
+
+    def abstract_calls(self, S, a):
+        return {}
+
+    def setup(self, S, case):
+        from contracts.gcp import sym_ktensor
+        a = super().setup(S, case)
+        K = sym_ktensor(S, "K")
+        K.ghost["dn"] = a["__self__"].ghost["dn"]
+        S.assume(a["n"] < K.ghost["N"])
+        S.assume(T.tz(K.ghost["shape"].fn(a["n"])) == K.ghost["dn"])
+        a["__self__"] = K
+        return a
